@@ -64,6 +64,13 @@ def make_body(rng, st, short, header_pos, bom, with_decl, latin=False):
                 # characters str.splitlines() would split on, but which are not line endings of the file
                 odd = rng.choice(["\x0c", "\x0b", "\x1c", "\x1d", "\x1e", "\x85", "\u2028", "\u2029"])
                 out.append(("A", rng.choice([f"K{nid()} odd {odd} inside", f"{odd}K{nid()} page break", f"K{nid()} s = '{odd}'"])))
+            elif r < 0.63:
+                # a commented example inside an ignore block: ordinary lines of the body, whatever tags they show
+                i = nid()
+                for ln in trees.comment_block(st, ["REUSE-IgnoreStart", f"C{i} example follows", "SPDX-License-Identifier: GPL-2.0-only",
+                                                   f"SPDX-FileCopyrightText: 1999 Example Person{i}", "REUSE-IgnoreEnd"]).split("\n"):
+                    out.append(("A", ln))
+                out.append(("B", ""))
             elif r < 0.75:
                 for _ in range(rng.randint(1, 3)):
                     out.append(("B", ""))
@@ -304,12 +311,15 @@ def run_case(case, ctx):
                 args += ["--style", short]
             if no_replace:
                 args.append("--no-replace")
+            merge = rng.random() < 0.2
+            if merge:
+                args.append("--merge-copyrights")
             if multi:
                 args.append("--multi-line")
             args += fargs
             r = run_cli(args, cwd=cwd)
             res.n += 1
-            desc = {"short": short, "eol": eolname, "header": header_pos, "no_replace": no_replace, "bom": bom, "decl": bool(decl),
+            desc = {"short": short, "eol": eolname, "header": header_pos, "no_replace": no_replace, "merge": merge, "bom": bom, "decl": bool(decl),
                     "final_nl": final_nl, "multi": multi}
             if r.escaped:
                 res.violation("escaped-exception", f"{r.exc_type} ({desc})", tb=r.exc_tb)
